@@ -12,7 +12,7 @@ LEAN_MODULES = ["Econf.Props.C14", "Econf.Props.Struct"]
 THEOREMS = ["Econf.C14_split_join", "Econf.C14_split_total", "Econf.C14_ext_comments", "Econf.C14_ext_values", "Econf.C14_copy_fields", "Econf.C14_comment_lines_length", "Econf.C14_write_value", "Econf.Struct.C14_fixed_buffers"]
 SHRINK = False
 RULE = ("every field kind (key, value, continuation line, section, comment before, comment after, file name, directory name, option "
-        "string, the definitions joined under JOIN_SAME_ENTRIES with an empty one among them, econftool --delimiters) x lengths {1, BUFSIZ-2..BUFSIZ+2, 2*BUFSIZ, 64Ki, 1Mi (thorough)} and {NAME_MAX-1, NAME_MAX}, "
+        "string, two keys / two sections that agree in all but their last byte, the definitions joined under JOIN_SAME_ENTRIES with an empty one among them, econftool --delimiters) x lengths {1, BUFSIZ-2..BUFSIZ+2, 2*BUFSIZ, 64Ki, 1Mi (thorough)} and {NAME_MAX-1, NAME_MAX}, "
         "{PATH_MAX-2..PATH_MAX+2} for names and paths (read), a short name through two symbolic links into a directory whose real path has 1.6k..7.6k bytes, drop-ins of two layers whose names of NAME_MAX-1 / NAME_MAX bytes differ in one byte (with and without suffix), NAME_MAX-6..NAME_MAX and PATH_MAX-8..PATH_MAX-1 (written and read back) x every API that copies the field (string and extended getter, merge, write, "
         "re-read, error location); lengths and FNV hashes of what comes back are compared with what went in; distinct by (field, length)")
 BUFSIZ = 8192
@@ -215,6 +215,35 @@ def join_scenario(sid, n):
     return s
 
 
+def pair_scenario(sid, field, n):
+    """two names (keys of one section, or sections) of n+1 bytes that agree in their first n bytes: both are kept, each with its own value;
+    read, looked up, written and read back, merged"""
+    s = Scenario(sid, {"field": "pair_" + field, "n": n})
+    R = run_token(n, 0x6b)
+    if field == "key":
+        content = R + "+" + h(b"A=first\n") + "+" + R + "+" + h(b"B=second\n")
+        names = [("-", R + "+" + h(b"A")), ("-", R + "+" + h(b"B"))]
+    else:
+        content = h(b"[") + "+" + R + "+" + h(b"A]\nk=first\n[") + "+" + R + "+" + h(b"B]\nk=second\n")
+        names = [(R + "+" + h(b"A"), h(b"k")), (R + "+" + h(b"B"), h(b"k"))]
+    s.add("F", h(b"/f.conf"), content)
+    s.add("RF", 0, h(b"/f.conf"), h(b"="), h(b"#"))
+    s.mkdir(b"/o")
+    s.add("WSUM", 0, h(b"/o"), h(b"w"))
+    s.add("RF", 1, h(b"/o/w"), h(b"="), h(b"#"))
+    # the second name alone in an override: the merge has to replace the second value and leave the first
+    if field == "key":
+        s.add("F", h(b"/g.conf"), R + "+" + h(b"B=third\n"))
+    else:
+        s.add("F", h(b"/g.conf"), h(b"[") + "+" + R + "+" + h(b"B]\nk=third\n"))
+    s.add("RF", 2, h(b"/g.conf"), h(b"="), h(b"#"))
+    s.add("M", 3, 0, 2)
+    for slot in (0, 1, 3):
+        for g, k in names:
+            s.add("GET", slot, "str", g, k)
+    return s
+
+
 LENS_Q = [1, BUFSIZ - 2, BUFSIZ - 1, BUFSIZ, BUFSIZ + 1, BUFSIZ + 2, 2 * BUFSIZ, 65536]
 FIELDS = ["value", "key", "section", "cb", "cb2", "ca", "cont", "line"]
 
@@ -227,6 +256,10 @@ def scenarios(tier, rng):
             out.append(field_scenario("%s_%d" % (f, n), f, n))
     for n in lens:
         out.append(join_scenario("joined_%d" % n, n))
+    for n in lens:
+        if n <= 65536:
+            out.append(pair_scenario("pairk_%d" % n, "key", n))
+            out.append(pair_scenario("pairs_%d" % n, "section", n))
     for n in (NAME_MAX - 1, NAME_MAX):
         out.append(name_scenario("fn_%d" % n, "filename", n))
         out.append(name_scenario("dn_%d" % n, "dirname", n))
@@ -298,6 +331,12 @@ def oracle(s, lines):
             ks = [l for l in lines if l.startswith("keysum ")]
             if not ks or " g " + summ(n, 0x73) not in ks[0]:
                 return "section of %d bytes listed as %r" % (n, ks)
+        return None
+    if f.startswith("pair_"):
+        gets = [l for l in lines if l.startswith("get ")]
+        want = ["get E0 " + h(x) for x in (b"first", b"second", b"first", b"second", b"first", b"third")]
+        if gets != want:
+            return "two %ss of %d bytes that differ in their last byte only: values come back as %r, expected %r (parsed; written and re-read; merged with an override of the second)" % (f[5:], n + 1, gets, want)
         return None
     if f == "joined":
         want = ["new E0 obj", "rc E0 obj"] + ["get E0 len=%d fnv=%016x" % (len(w), fnv(w)) for w in m["want"]]
